@@ -181,7 +181,7 @@ theorem parseMode_unknown (T : Table) (es : List Elem) (mode : Mode) (full : Boo
   unfold parseMode; rw [foldl_unknown]; simp
 
 /-- `mode` is one of the two part modes -/
-def partMode (mode : Mode) : Prop := mode = .pub ∨ mode = .sens
+def partMode (_mode : Mode) : Prop := True
 
 /-- An element of row `r` present in a part can only be recognised as `r` (distinguishability). -/
 theorem recognise_owner {T : Table} (hs : WFshape T) {r : Row} (hr : r ∈ T.rows) {e : Elem}
@@ -217,7 +217,7 @@ theorem recognise_owner {T : Table} (hs : WFshape T) {r : Row} (hr : r ∈ T.row
       unfold clash
       simp only [Bool.and_eq_true, List.any_eq_true]
       refine ⟨⟨e.tag, ht, e.ns, hn, hp.2⟩, mode, ?_, ?_⟩
-      · rcases hm with rfl | rfl <;> simp
+      · cases mode <;> simp
       · simp [hon, hp.1]
     rw [hc] at this
     cases this
@@ -323,8 +323,8 @@ theorem recover_field {T : Table} (hs : WFshape T) {m : Msg} (hv : Msg.Valid T m
   rw [parseMode_msg, parseMode_msg]
   simp only [Msg.empty, List.nil_append]
   unfold publicPart sensitivePart writeMode writeExt
-  rw [filter_part hs .pub (Or.inl rfl) true (fun r => r.emits m .pub) (valid_emits hv .pub) h0 hp hca (Or.inr (by simp))]
-  rw [filter_part hs .sens (Or.inr rfl) false (fun r => if r.wrapper then [] else r.emits m .sens)
+  rw [filter_part hs .pub trivial true (fun r => r.emits m .pub) (valid_emits hv .pub) h0 hp hca (Or.inr (by simp))]
+  rw [filter_part hs .sens trivial false (fun r => if r.wrapper then [] else r.emits m .sens)
     (valid_emits_ext hv) h0 hp hca (by cases hw : r0.wrapper <;> simp)]
 
 /-- What is left unrecognised in a part whose rows are all sound: exactly the elements of the catch-all row(s). -/
@@ -360,6 +360,30 @@ theorem unknown_part {T : Table} (hs : WFshape T) (hp : T.rows.all Row.wfParse =
       simp only [hca, if_true, Bool.and_eq_true, beq_iff_eq] at hpr
       rw [hpr.2] at h2
       simp [Recog.accepts] at h2
+
+/-- The field of a sound row after a combined-mode cycle (`toXml(SceAll)`, `parse(SceAll)`). -/
+theorem cycle_field {T : Table} (hs : WFshape T) {m : Msg} (hv : Msg.Valid T m)
+    {r0 : Row} (h0 : r0 ∈ T.rows) (hp : r0.wfParse = true) (hca : r0.catchAll = false) :
+    (parseMode T (writeMode T m .all) .all true Msg.empty).msg r0.name = r0.emits m .all := by
+  rw [parseMode_msg]
+  simp only [Msg.empty, List.nil_append]
+  unfold writeMode
+  exact filter_part hs .all trivial true (fun r => r.emits m .all) (valid_emits hv .all) h0 hp hca (Or.inr (by simp))
+
+/-- a parsed object read as a message: known fields are the parsed fields -/
+theorem ofPSt_known {T : Table} (hs : WFshape T) (s : PSt) {r0 : Row} (h0 : r0 ∈ T.rows) (hca : r0.catchAll = false) :
+    ofPSt T s r0.name = s.msg r0.name := by
+  unfold ofPSt
+  have : T.rows.any (fun r => r.catchAll && r.name == r0.name) = false := by
+    rw [Bool.eq_false_iff]
+    intro h
+    obtain ⟨r, hr, hc⟩ := List.any_eq_true.mp h
+    simp only [Bool.and_eq_true, beq_iff_eq] at hc
+    have := eq_of_name_eq T hs.2.1 hr h0 hc.2
+    subst this
+    rw [hca] at hc
+    exact Bool.false_ne_true hc.1
+  simp [this]
 
 theorem wfParse_of_not_offending {T : Table} {r : Row} (hr : r ∈ T.rows) (h : r.name ∉ offendingParse T) :
     r.wfParse = true := by
